@@ -9,7 +9,7 @@
    tools' chunks.  [answer c] is what the tool named by call [c] returns on [c]'s arguments
    (through the handler for an unknown name; [Err] if the name does not resolve). *)
 From Coq Require Import Permutation.
-From Eino Require Import Base.Util Model.Concat Model.ConcatMsg Model.Tools Model.ToolsMsg Model.ToolsOpts Model.ToolsPar Proofs.Tools Proofs.ToolsMore Proofs.ToolsConcat Proofs.ToolsOpts Proofs.ToolsAgree Proofs.ToolsPar.
+From Eino Require Import Base.Util Model.Concat Model.ConcatMsg Model.Tools Model.ToolsMsg Model.ToolsOpts Model.ToolsPar Proofs.Tools Proofs.ToolsMore Proofs.ToolsConcat Proofs.ToolsOpts Proofs.ToolsAgree Proofs.ToolsPar Proofs.ToolsParProg.
 Local Open Scope string_scope.
 
 (* N calls => exactly N messages, the i-th = (output of the i-th call's tool on its arguments,
@@ -373,6 +373,28 @@ Theorem tools_par_stream_refines :
     r = tools_stream_open kind_of inv str handler pi true calls /\ p_crash st = false.
 Proof. exact par_stream_refines. Qed.
 Print Assumptions tools_par_stream_refines.
+
+(* ... and the protocol cannot deadlock: whatever has happened so far, some continuation of the
+   schedule lets the caller pass wg.Wait and finish with a result (provided the tools return) *)
+Theorem tools_par_invoke_no_deadlock :
+  forall inv str tasks sch st,
+    tasks <> [] ->
+    par_invoke inv str prog_ok tasks sch (pinit tasks) = Some st ->
+    exists sch' st' r,
+      par_invoke inv str prog_ok tasks (sch ++ sch') (pinit tasks) = Some st'
+      /\ par_result assemble_invoke tasks st' = Some r.
+Proof. exact par_invoke_no_deadlock. Qed.
+Print Assumptions tools_par_invoke_no_deadlock.
+
+Theorem tools_par_stream_no_deadlock :
+  forall inv str tasks sch st,
+    tasks <> [] ->
+    par_stream inv str prog_ok tasks sch (pinit tasks) = Some st ->
+    exists sch' st' r,
+      par_stream inv str prog_ok tasks (sch ++ sch') (pinit tasks) = Some st'
+      /\ par_result assemble_stream tasks st' = Some r.
+Proof. exact par_stream_no_deadlock. Qed.
+Print Assumptions tools_par_stream_no_deadlock.
 
 (* with wg.Done deferred AFTER the recover handler (so that it runs BEFORE it: [prog_v0]) there is
    a schedule in which the caller passes wg.Wait and scans before the panic error of call 1 is
